@@ -22,12 +22,12 @@ def classify(v, src, fin, strict, obs):
 
 
 def _opts(o, i):
-    o.reserved = False   # re-enabled together with the reserved-name repair (see DESIGN §10.6)
+    o.reserved = (i % 3 == 1)
     return o
 
 
 def run(ctx):
-    n = ctx.budget(60, 2500)
+    n = ctx.budget(60, 900)
     srcs = FC.gen_sources(ctx, n, lambda i: _opts(Opts(sugar=(i % 3 == 0), max_bin=5 if ctx.tier == 'quick' else 6,
                                                         whole_rhs_cast=(i % 6 == 0)), i))
     FC.run_functions(ctx, srcs, [(False, False), (True, False), (False, True), (True, True)], classify=classify,
